@@ -5,7 +5,7 @@
     ShutdownThenExit (safety, all message kinds) and EventuallyAnswered under weak fairness (MC_Lsp_live.cfg).
  2. TLC enumerates every message sequence up to length 3 over all message kinds (2 URIs + a non-file URI,
     2 texts, 0/1/2 content changes, semantic-token / unknown requests, unknown notifications, client
-    responses), closed by shutdown + exit; each is piped to a fresh server and the frames and the exit status
+    responses, requests and notifications whose params do not fit their method), closed by shutdown + exit; each is piped to a fresh server and the frames and the exit status
     must equal the specification's reply queue.
  3. Random interleavings up to length 60 are recorded and validated by LspTrace.tla (impl -> spec).
 """
@@ -20,7 +20,7 @@ import lsptrace  # noqa: E402
 import vlib  # noqa: E402
 
 ALL_KINDS = ("open", "open", "change0", "change1", "change1", "change2", "open_nf", "semtok", "semtok", "unkreq",
-             "unknotif", "cresp")
+             "unknotif", "cresp", "close", "badreq", "badnotif")
 
 
 def main():
@@ -33,11 +33,12 @@ def main():
     cov["states"] += live["states"]
     cov["transitions"] += live["transitions"]
     cov["tlc_runs"].append({"cfg": "MC_Lsp_live.cfg", "states": live["states"], "liveness": "EventuallyAnswered under WF"})
-    for act in ("DidOpen", "DidChange", "DidOpenNonFile", "SemTok", "UnknownReq", "UnknownNotif", "ClientResponse", "Shutdown", "Exit"):
+    for act in ("DidOpen", "DidChange", "DidOpenNonFile", "SemTok", "UnknownReq", "UnknownNotif", "ClientResponse", "DidClose", "BadParamsReq", "BadParamsNotif", "Shutdown", "Exit"):
         if live["coverage"].get(act, 0) == 0:
             raise vlib.ToolError("action %s never taken in MC_Lsp_live" % act)
     vlib.deviation_caught("Lsp.tla", "DEV_Lsp_DropUnknownRequest.cfg", "NoPendingAtRest", cov)
     vlib.deviation_caught("Lsp.tla", "DEV_Lsp_CrashOnResponse.cfg", "Survives", cov)
+    vlib.deviation_caught("Lsp.tla", "DEV_Lsp_CrashOnBadParams.cfg", "Survives", cov)
     cov["actions_taken"] = {k: v for k, v in live["coverage"].items() if k[0].isupper()}
     # texts 1, 2 of the C12 alphabet: a valid document and one with a lexical error (null token result)
     texts = {1: doctexts.T_VALID, 2: doctexts.T_LEX, 3: doctexts.T_DUP}
@@ -74,10 +75,10 @@ def main():
     t5 = lspcheck.Tables(doctexts.TEXTS)
     lsptrace.random_histories(rep, cov, t5, doctexts.TEXTS, n, maxlen=60, seed=vlib.SEED + 12, kinds=ALL_KINDS, prop="C12")
     cov["exhaustive"] = tier != "quick"
-    cov["rule"] = ("all message sequences up to length 3 over 26 message instances (quick: all of length <= 2 + 1/3 of length 3), "
+    cov["rule"] = ("all message sequences up to length 3 over 43 message instances (quick: all of length <= 2 + 1/3 of length 3), "
                    "+ %d random interleavings up to length 60, each followed by shutdown and exit" % n)
     return rep.finish("model_checking", cov, assumptions=[
-        "well-formed messages only: params of known methods are valid for their method",
+        "well-formed JSON-RPC only (every message is a request, response or notification object); params that do not fit an implemented method are part of the alphabet (badreq / badnotif)",
         "request ids are distinct integers (the message number)"])
 
 
